@@ -54,7 +54,7 @@ def install_phase_wrappers():
 class RecordingProblem(Problem):
     """f(y) = G((y-lower)/side) with a call log.  log entries: dict(i, y, v, ph, exc)."""
 
-    def __init__(self, N, lower, upper, G, cap=None, fault=None, bounds_as="array"):
+    def __init__(self, N, lower, upper, G, cap=None, fault=None, bounds_as="array", holder="same"):
         super().__init__()
         self.numberOfFloatVariables = N
         self.dimension = N
@@ -70,6 +70,7 @@ class RecordingProblem(Problem):
         self._lo = np.array(lower, dtype=float)
         self._side = np.array(upper, dtype=float) - self._lo
         self.G = G
+        self.holder = holder        # "same": fill and return the supplied holder; "new": return a fresh FunctionValue
         self.log = []
         self.ng = 0
         self.cap = cap
@@ -100,6 +101,12 @@ class RecordingProblem(Problem):
             raise self.fault[1]("injected fault at evaluation %d" % i)
         v = self.f(y)
         ent["v"] = v
+        if self.holder == "new":
+            # functional style allowed by the signature `Calculate(point, functionValue) -> FunctionValue`:
+            # the result travels in the returned object, the supplied holder is left untouched
+            out = FunctionValue(functionValue.type, functionValue.functionID)
+            out.value = v
+            return out
         functionValue.value = v
         return functionValue
 
@@ -234,7 +241,7 @@ def make_problem(scn, cap=None, fault=None):
     N = scn["N"]
     G, info = scenario.build_objective(scn["obj"], N)
     p = RecordingProblem(N, scn["lower"], scn["upper"], G, cap=cap, fault=fault,
-                         bounds_as="list" if scn.get("box") == "int" else "array")
+                         bounds_as="list" if scn.get("box") == "int" else "array", holder=scn.get("holder", "same"))
     return p, info
 
 
@@ -291,16 +298,44 @@ def run_solver(scn, listener=True, cap="auto", fault=None, after_step=None, insi
         solver.AddListener(l)
     pattern = scn.get("pattern", [["solve"]])
     t.aborted = False
+    t.fp_exhausted = False
     try:
         t.solutions, t.stdout = run_pattern(solver, pattern, after_step=after_step)
     except BudgetAbort:
         t.aborted = True
         t.solutions, t.stdout = [], ""
+    except Exception as e:
+        if FP_GUARD in str(e) and partition_degenerate(solver):
+            t.fp_exhausted = True
+            t.solutions, t.stdout = [], ""
+        else:
+            raise
     t.log = problem.log
     t.budget_violation = bool(getattr(problem, "budget_violation", False))
     t.final = snap_solution(solver.GetResults())
     t.swallowed = "Exception was thrown" in t.stdout
+    if t.swallowed and FP_GUARD in t.stdout and partition_degenerate(solver):
+        t.fp_exhausted = True
+        t.swallowed = False
     return t
+
+
+FP_GUARD = "x is outside of interval"
+
+
+def partition_degenerate(solver):
+    """True when two neighbouring curve coordinates of the search information are (nearly) adjacent doubles: no
+    representable interior point is left, the method's own guard 'x is outside of interval' is then legitimate and
+    the scenario has left the floating-point domain of every property (DESIGN.md section 3).  A guard that fires on a
+    non-degenerate partition is NOT excused."""
+    try:
+        xs = [float(it.GetX()) for it in solver.searchData]
+    except Exception:
+        return False
+    for a, b in zip(xs, xs[1:]):
+        if b - a <= 8 * float(np.spacing(b)):
+            return True
+    return False
 
 
 def global_log(t):
